@@ -40,7 +40,7 @@ meta = {
     'property': ID,
     'origin': 'independent sub-agent given only the property text and a scratch worktree of /repo (nothing from /verif)',
     'summary': agent.get('summary'),
-    'needs_to_manifest': agent.get('needs'),
+    'needs_to_manifest': agent.get('needs') or agent.get('needs_to_manifest'),
     'files': agent.get('files'),
     'agent_report': {k: agent.get(k) for k in ('tests_run', 'demo_with_change', 'demo_without_change') if k in agent},
     'confirmed_by': {
